@@ -404,6 +404,12 @@ pub fn child_decode(kind: &str, path: &str) {
     "skymap" => from_fits_skymap(BufReader::new(Cursor::new(bytes)), 0.0, 0.0, 0.9, false, true, false, false).map(|m| m.len()).map_err(|e| e.to_string()),
     _ => {
       let store = U64MocStore::get_global_store();
+      // the typed loaders of the store (they must refuse or load, never abort)
+      for r in [store.load_smoc_from_fits_buff(&bytes), store.load_tmoc_from_fits_buff(&bytes), store.load_fmoc_from_fits_buff(&bytes), store.load_stmoc_from_fits_buff(&bytes)] {
+        if let Ok(i) = r {
+          let _ = store.drop(i);
+        }
+      }
       store.load_from_fits_buff(&bytes).map(|i| {
         let _ = store.drop(i);
         i
@@ -512,6 +518,9 @@ fn text_totality(rep: &mut Report, orc: &mut Oracle, rng: &mut Rng) {
   run("store.load_stmoc_from_ascii", &|| store.load_stmoc_from_ascii(&t).map(|i| { let _ = store.drop(i); }));
   run("store.load_smoc_from_json", &|| store.load_smoc_from_json(&t).map(|i| { let _ = store.drop(i); }));
   run("store.load_stmoc_from_json", &|| store.load_stmoc_from_json(&t).map(|i| { let _ = store.drop(i); }));
+  run("store.load_fmoc_from_ascii", &|| store.load_fmoc_from_ascii(&t).map(|i| { let _ = store.drop(i); }));
+  run("store.load_tmoc_from_json", &|| store.load_tmoc_from_json(&t).map(|i| { let _ = store.drop(i); }));
+  run("store.load_fmoc_from_json", &|| store.load_fmoc_from_json(&t).map(|i| { let _ = store.drop(i); }));
 }
 
 pub fn run(ctx: &Ctx) -> Report {
